@@ -308,6 +308,34 @@ def run(ctx, R):
         same_vid = ok and ekey(b["args"][0]) == ekey(e["args"][0])
         R.check(ok and same_vid, "r4", "begin-build-end", C.loc(mk["sp"]),
                 "make_fold must call tags.begin_subcomponent(v), then build the component, then tags.end_subcomponent(v)")
+        # lockstep of the two component stacks: ComponentPath (push/pop) and the tag handler's (begin/end_subcomponent) must
+        # be advanced and unwound on exactly the same paths - an early exit between the two unwinding calls leaves them out
+        # of sync and the tag handler's own assert_eq! fires on the next sibling fold
+        stmts = mk["body"].get("stmts", [])
+
+        def stmt_of(pred):
+            hits = [i for i, s in enumerate(stmts) if any(pred(x) for x in walk(s))]
+            return hits[0] if len(hits) == 1 else None
+        is_call = lambda nm, owner: (lambda x: x.get("k") in ("call", "mcall") and x.get("name") == nm and owner in (x.get("callee") or ""))
+        i_push, i_pop = stmt_of(is_call("push", "ComponentPath")), stmt_of(is_call("pop", "ComponentPath"))
+        i_beg, i_end = stmt_of(is_call("begin_subcomponent", "TagHandler")), stmt_of(is_call("end_subcomponent", "TagHandler"))
+        if None in (i_push, i_pop, i_beg, i_end):
+            R.fail("r4", "stack-lockstep", C.loc(mk["sp"]), "make_fold must advance and unwind ComponentPath and the tag handler's component "
+                   "stack exactly once each at statement level (found push/pop/begin/end at %s)" % ([i_push, i_pop, i_beg, i_end],))
+        else:
+            def exits_between(i, j):
+                lo, hi = min(i, j), max(i, j)
+                for s in stmts[lo + 1:hi + 1]:
+                    # an exit in the later statement itself counts only if it precedes the call; a `?`/return anywhere is enough to alarm
+                    if any(x.get("k") == "ret" for x in walk(s)):
+                        return True
+                return False
+            R.check(not exits_between(i_push, i_beg) and abs(i_push - i_beg) == 1, "r4", "stack-lockstep/advance", C.loc(mk["sp"]),
+                    "component_path.push and tags.begin_subcomponent must be adjacent statements with no early exit between them")
+            R.check(not exits_between(i_pop, i_end), "r4", "stack-lockstep/unwind", C.loc(mk["sp"]),
+                    "an early exit (`?` / return) lies between component_path.pop and tags.end_subcomponent: on that path one component "
+                    "stack is unwound and the other is not, and the next sibling @fold trips the tag handler's assertion (frontend panic)")
+            R.check(i_push < i_pop and i_beg < i_end, "r4", "stack-lockstep/order", C.loc(mk["sp"]), "push/begin must precede pop/end")
         sc = Scope(C, mk)
         st = [n for n in walk(mk["body"]) if n.get("k") == "struct" and n.get("adt") == IR + "IRFold"]
         imp = None
